@@ -33,7 +33,7 @@ theorem encoded_length (is : List Instr) : (encodeInstrs is).length = codeSize i
 
 /-- 7(b), expression fragment (literals, symbols, variables of the four kinds, unary minus / not, all 19 binary operators — the 17
     infix ones fully parenthesised, `sprite a intersects|within b` as the prefix form —, `field`, function calls with any number of
-    arguments, linear lists; nesting depth and width unbounded): the token list the reference
+    arguments, linear lists, chunk expressions `char a [to b] of s` (nested in any order); nesting depth and width unbounded): the token list the reference
     printer writes (fully parenthesised, as the decompiler prints) is read back by the reference reader as the same tree, at
     every precedence level and followed by anything that cannot continue an expression.
     `Frag env e` says that `env` classifies every identifier the way the tree does (a local is not declared global, a called
@@ -55,13 +55,14 @@ theorem read_print_args (env : Env) (es : List Expr) (h : FragL env es) (c : Tok
     pMore env F (prTail es ++ c :: rest) = some (es, c :: rest) :=
   rp_more env es h c hc rest F hF
 
-/-- non-vacuity: `((a - (b - 1)) * f(-x, not (a = "s"), [sprite 1 within (x + 2), []]))` with `a` a parameter, `b` a global, `x` a local is in the fragment,
+/-- non-vacuity: `((a - (b - 1)) * f(-x, not (a = "s"), [sprite 1 within (x + 2), []], char 2 to (3 + 1) of word 1 of field x))` with `a` a parameter, `b` a global, `x` a local is in the fragment,
     so the theorem applies to it (and the reader indeed returns the tree) -/
 example :
     let env : Env := { params := ["a".toList], globals := ["b".toList] }
     let e : Expr := .bin .mul (.bin .sub (.var .param "a".toList) (.bin .sub (.var .glob "b".toList) (.int 1)))
       (.call "f".toList [.un .neg (.var .loc "x".toList), .un .not (.bin .eq (.var .param "a".toList) (.str "s".toList)),
-        .list [.bin .within (.int 1) (.bin .add (.var .loc "x".toList) (.int 2)), .list []]])
+        .list [.bin .within (.int 1) (.bin .add (.var .loc "x".toList) (.int 2)), .list []],
+        .chunk .char (.int 2) (.bin .add (.int 3) (.int 1)) (.chunk .word (.int 1) (.int 0) (.field (.var .loc "x".toList)))])
     Frag env e ∧ (pExpr env (fuelOf e + 6) (prE e)).map (·.1.toSX.render) = some e.toSX.render := by
   refine ⟨?_, by decide +kernel⟩
   simp only [Frag, FragL, PlainId]
